@@ -296,3 +296,66 @@ func TestC10HelperLateWrite(t *testing.T) {
 		}
 	}
 }
+
+// TestC10WaiterFreshConn: MaxConns 1 with waiting enabled; more callers than connections; the peer reads every
+// request and closes without a byte. A connection that is dialed for a queued waiter has never been idle in
+// the pool: a failure on it ends the call (it is no keep-alive race), it is not repeated without limit. The
+// verdict is a count: the number of requests the peer received for 3 calls. An unbounded repetition shows
+// as hundreds of requests within the observation window; the window itself decides nothing.
+func TestC10WaiterFreshConn(t *testing.T) {
+	rec := ev.New("waiter-fresh-conn")
+	for _, d := range []struct {
+		name   string
+		dialer network.Dialer
+	}{{"standard", standard.NewDialer()}, {"netpoll", netpoll.NewDialer()}} {
+		for _, lag := range []time.Duration{0, 3 * time.Millisecond} {
+			ln, err := net.Listen("tcp", "127.0.0.1:0")
+			if err != nil {
+				t.Fatalf("listen: %v", err)
+			}
+			var requests int32
+			go func() {
+				for {
+					c, err := ln.Accept()
+					if err != nil {
+						return
+					}
+					go func() {
+						buf := make([]byte, 4096)
+						if n, _ := c.Read(buf); n > 0 {
+							atomic.AddInt32(&requests, 1)
+						}
+						time.Sleep(lag)
+						c.Close()
+					}()
+				}
+			}()
+			opts := &http1.ClientOptions{Dialer: d.dialer, MaxConns: 1, MaxConnWaitTimeout: 300 * time.Millisecond, DialTimeout: time.Second, ReadTimeout: 200 * time.Millisecond}
+			hc := http1.NewHostClient(opts).(*http1.HostClient)
+			hc.Addr = ln.Addr().String()
+			const callers = 3
+			var returned int32
+			for i := 0; i < callers; i++ {
+				go func() {
+					req, resp := protocol.AcquireRequest(), protocol.AcquireResponse()
+					req.SetRequestURI("http://example.com/x")
+					hc.Do(context.Background(), req, resp) //nolint:errcheck
+					atomic.AddInt32(&returned, 1)
+				}()
+			}
+			deadline := time.Now().Add(3 * time.Second)
+			for time.Now().Before(deadline) && atomic.LoadInt32(&returned) < callers && atomic.LoadInt32(&requests) < 200 {
+				time.Sleep(10 * time.Millisecond)
+			}
+			got, back := atomic.LoadInt32(&requests), atomic.LoadInt32(&returned)
+			ln.Close()
+			rec.Case(true, ev.HashString(d.name, lag.String()), "dialer-"+d.name)
+			// each call may repeat once or twice on a connection that really came out of the pool
+			if got > 40 {
+				msg := fmt.Sprintf("%s dialer, peer closes %v after each request: %d requests received for %d calls, %d of them returned: a connection dialed for a queued waiter is treated as a pooled one and the call is repeated without limit", d.name, lag, got, callers, back)
+				ev.Fail(prop, "waiter-fresh-conn", map[string]interface{}{"dialer": d.name, "lag": lag.String()}, msg)
+				t.Errorf("%s", msg)
+			}
+		}
+	}
+}
